@@ -9,7 +9,8 @@ EXPLANATION = (
     "is a key of the compared+stored kwargs, the public function and the reusable constructor forward every parameter by "
     "name); on replacement shutdown(wait=True, kill_workers=...) precedes the reset of the globals which precedes the "
     "returned recursive construction with the new arguments; ids grow by one under the lock; the reuse branch resizes to "
-    "the requested size; the factory call terminates structurally (R-POLL on the resize loops). Not decided: race outcomes as values."
+    "the requested size, and the resize itself publishes the new size only together with the sentinels, after the wait for "
+    "running jobs (R-RESIZE: an interrupted resize must not leave the new size recorded without the workers); the factory call terminates structurally (R-POLL on the resize loops). Not decided: race outcomes as values."
 )
 
 
@@ -18,5 +19,6 @@ def run(e, R, tier):
         L.r_lock_order,
         L.r_iter_snapshot,
         X.r_singleton,
+        X.r_resize,
         lambda e, R: L.r_poll(e, R, only_funcs={f.qualname for f in e.prog.funcs.values() if f.module.name == "loky.reusable_executor"}),
     ])
